@@ -1,4 +1,5 @@
 PROP = dict(
+    drivers=['Crc'],
         gens=['crc'],
         lake=['IcyVerif.Props.C19'],
         ns='IcyVerif.C19',
